@@ -107,6 +107,10 @@ func c01exec(c *h.Ctx, cs *h.Case) {
 		c01cluster(c, cs)
 		return
 	}
+	if len(cs.Ops) > 0 && (strings.HasPrefix(cs.Ops[0], "c01 iarrive ") || strings.HasPrefix(cs.Ops[0], "c01 ictor ")) {
+		c01inst(c, cs)
+		return
+	}
 	if len(cs.Ops) > 0 && strings.HasPrefix(cs.Ops[0], "c01 send ") {
 		c01send(c, cs)
 		return
@@ -386,6 +390,7 @@ func c01gen(c *h.Ctx, yield func(*h.Case)) {
 		yield(cs)
 	}
 	c01sendGen(c, yield)
+	c01instGen(c, yield)
 	for n := 0; n < c.Pick(12, 150); n++ {
 		tcp := 0
 		if n%3 == 2 {
